@@ -260,3 +260,55 @@ package errbase
 //@   props C04 C03 C12
 //@   trusted "promoted method: synthetic wrapper around (*opaqueLeaf).SafeDetails on the embedded struct"
 //@   ensures result == self.details.ReportablePayload
+
+// ======================================================================================
+// Formatting engine (C05 index safety, C09 entry structure, C03 what is flagged redactable)
+// ======================================================================================
+
+// foreign formatting methods receive the state as a Printer / fmt.State: they can only reach it
+// through Print/Printf/Detail/Write, which never touch the entry list
+//@ spec func treeSize(e error) int
+
+//@ global invariant detailsep_len: len(detailSep) == 5
+
+//@ func ElideSharedStackTraceSuffix
+//@   props C05 C09
+//@   ensures len(result0) <= len(newStack)
+//@   loop 1: invariant 0 <= i && i < len(newStack) && 0 <= j && j < len(prevStack)
+
+//@ method (*state).Write
+//@   props C05 C09 C06
+//@   assigns heap state.buf, heap state.headBuf, heap state.needNewline, heap state.needSpace, heap state.multiLine, heap state.notEmpty, heap state.hasDetail
+//@   ensures result0 == len(b) && result1 == nil
+//@   loop 1: invariant 0 <= k && k <= $n
+
+//@ method (*state).formatSimple
+//@   props C05 C09 C03
+//@   requires err != nil
+//@   assigns heap state.buf, heap state.headBuf, heap state.needNewline, heap state.needSpace, heap state.multiLine, heap state.notEmpty, heap state.hasDetail
+
+//@ method (*state).elideShortChildren
+//@   props C05 C09
+//@   requires 0 <= newEntries && newEntries <= len(self.entries)
+//@   assigns heap state.entries
+//@   ensures len(self.entries) == old(len(self.entries))
+//@   loop 1: invariant 0 <= i && len(self.entries) == old(len(self.entries))
+
+//@ method (*state).collectEntry
+//@   props C05 C09 C03 C06
+//@   ensures result.err == err
+//@   ensures result.redactable ==> (bufIsRedactable && self.redactableOutput)
+//@   ensures result.depth == (withDepth ? depth : 0)
+
+//@ method (*state).formatRecursive
+//@   props C05 C09 C03 C13
+//@   requires err != nil
+//@   assigns heap state.entries, heap state.buf, heap state.headBuf, heap state.lastStack, heap state.needNewline, heap state.needSpace, heap state.multiLine, heap state.notEmpty, heap state.hasDetail, heap state.wantDetail
+//@   ensures result >= 1 && len(self.entries) == old(len(self.entries)) + result
+//@   loop 1: invariant numChildren >= 0 && len(self.entries) == old(len(self.entries)) + numChildren
+
+//@ global invariant specialcases_nonnil: forall i int :: 0 <= i && i < len(specialCases) ==> specialCases[i] != nil
+//@ func RegisterSpecialCasePrinter
+//@   props C05 C03
+//@   requires fn != nil
+//@   maintains specialcases_nonnil
